@@ -436,4 +436,41 @@ def r7(ctx):
         c = [x for x in walk_own(fi.node) if isinstance(x, ast.Call) and isinstance(x.func, ast.Attribute) and x.func.attr in ("verify", "sign")][0]
         ctx.check(norm(c.func.value) == "self.key" and norm(c.args[-1]) == "ec.ECDSA(hashes.SHA256())", "C02.R7", fi, "%s uses self.key with ECDSA/SHA-256" % fi.name, witness=norm(c))
 
-RULES = [("C02.R1", r1), ("C02.R2", r2), ("C02.R3", r3), ("C02.R4", r4), ("C02.R5", r5), ("C02.R6", r_idioms), ("C02.R7", r7)]
+def r8(ctx):
+    """one key and one token per handshake: a pending handshake's connection object (whose ephemeral key and token the client
+    has adopted from the first server hello) is never replaced or re-keyed by a duplicated / replayed hello"""
+    fi = ctx.fn("server:UdpServerThread.run")
+    stores = []
+    for f in ctx.repo.all_functions():
+        if f.module.name not in ("server", "context", "connection", "twisted"):
+            continue
+        for n in walk_own(f.node):
+            if isinstance(n, ast.Subscript) and isinstance(n.ctx, ast.Store) and isinstance(n.value, ast.Attribute) and n.value.attr == "temp_connections":
+                stores.append((f, n))
+    if not ctx.require("C02.R8", fi, "registration of a pending handshake (temp_connections[addr] = ...)", len(stores), 1):
+        return
+    for f, n in stores:
+        cfg = cfg_of(f)
+        cc = CondCtx(ctx.folder, f.module, f.cls)
+        lits = node_lits(cfg, cfg.node_of(n).id, cc)
+        key = norm(n.slice)
+        pool = norm(n.value)
+        conn = pool[:-len("temp_connections")] + "connections"
+        not_temp = any(l.kind == "atom" and not l.positive and l.subject == "%s in %s" % (key, pool) for l in lits)
+        not_conn = any(l.kind == "atom" and not l.positive and l.subject == "%s in %s" % (key, conn) for l in lits)
+        ctx.check(not_temp, "C02.R8", f, n, "a pending handshake is registered only for an address with no pending handshake "
+                  "(a duplicated hello cannot replace the key and token the client already adopted)", witness=[repr(l) for l in lits], line=n.lineno)
+        ctx.check(not_conn, "C02.R8", f, n, "a pending handshake is registered only for an address that is not connected",
+                  witness=[repr(l) for l in lits], line=n.lineno)
+    # the server-side key is derived once per connection object: only _recvClientHello writes it, and the temp branch never
+    # delivers a hello to an existing object (shared pool-branch obligations of C01.R6)
+    writers = [a for a in attr_accesses(ctx.repo, "session_key_bytes") if a.kind in ("store", "aug") and a.fi.cls is not None
+               and a.fi.cls.name == "ServerClientConnection"]
+    w = sorted(a.fi.name for a in writers)
+    ctx.check(w == ["__init__", "_recvClientHello"], "C02.R8", "connection:ServerClientConnection", "writers of the server-side session key",
+              "the key is derived only while handling the client hello", witness=w)
+    sub = _Sub(ctx, "C02.R8")
+    c01.r6(sub)
+
+
+RULES = [("C02.R1", r1), ("C02.R2", r2), ("C02.R3", r3), ("C02.R4", r4), ("C02.R5", r5), ("C02.R6", r_idioms), ("C02.R7", r7), ("C02.R8", r8)]
